@@ -130,7 +130,7 @@ def gramp(dt, shape, base):
     n = int(np.prod(shape)) if shape else 1
     if dt == 'S1':
         return np.array(list('abcdefghij'[:n]), dtype='S1').reshape(shape)
-    v = 1 + (base + np.arange(n)) % 90
+    v = 1 + (base + np.arange(n)) % 90 + (np.arange(n) // 90) % 7 * 100
     if np.dtype(dt).kind == 'f':
         v = v + 0.25
     if np.dtype(dt).kind == 'i' and dt != 'i1':
@@ -145,11 +145,12 @@ def grid_file(rec, flavour):
     nt = rec['nt']
     f.dims['t'] = [nt, True]
     f.dims['z'] = [1, False]
-    f.dims['x'] = [3, False]
+    nx = rec.get('nx', 3)
+    f.dims['x'] = [nx, False]
     dt = rec['dt']
-    shapes = [(('t', 'z', 'x'), (nt, 1, 3)), (('t', 'x'), (nt, 3)), (('x',), (3,)), (('z', 'x'), (1, 3)), ((), ())]
+    shapes = [(('t', 'z', 'x'), (nt, 1, nx)), (('t', 'x'), (nt, nx)), (('x',), (nx,)), (('z', 'x'), (1, nx)), ((), ())]
     if flavour == 'NETCDF4':
-        shapes.append((('x', 't'), (3, nt)))
+        shapes.append((('x', 't'), (nx, nt)))
     if dt == 'S1':
         shapes = [s_ for s_ in shapes if s_[0] in (('x',), ('t', 'x'))]
     for i, (dims, sh) in enumerate(shapes):
@@ -190,6 +191,12 @@ def grid_recs(tier, flavour):
         nts = (2, 1, 0) if tier == 'thorough' else (2, 0)
         for nt in nts:
             out.append({'dt': dt, 'mask': None, 'nt': nt})
+        if dt in ('f4', 'i2', 'f8'):
+            # long record and fixed dimensions: one record more than 2**10 and 2**11 (writers that work in blocks)
+            for nt, nx in ((1025, 3), (3, 1025), (2049, 2)) + (((1024, 3), (1023, 2), (4097, 1)) if tier == 'thorough' else ()):
+                out.append({'dt': dt, 'mask': None, 'nt': nt, 'nx': nx})
+                if dt == 'f4':
+                    out.append({'dt': dt, 'mask': ['one', 'fill_value', -999.], 'nt': nt, 'nx': nx})
         if dt == 'S1':
             continue
         pats = PATTERNS if tier == 'thorough' else PATTERNS[:3]
